@@ -40,6 +40,9 @@ Check C02_trade_ids_step : forall i fs f, Forall (valid_fill i) fs -> valid_fill
 Check C02_oracle_sound : forall c,
   Corr.C02.wf_case c = true -> Corr.C02.corr_b c = true -> Corr.C02.prop_b c = true.
 
+Check C02_restore_invariant : forall ops, prun_r ops = prun (fills_of_ops ops).
+Check eq_refl : pstep_r = fun s o => match o with PFill f => pstep s f | PRestore => s end.
+
 (* the definitions the statements rest on, pinned by evaluation *)
 Check eq_refl : valid_fill = fun i f => f_inst f = i /\ 0 < f_qty f.
 Check eq_refl : prun = fun fs => fold_left pstep fs (None, []%list).
@@ -76,25 +79,27 @@ Definition good_obs := [
   mkOS (Some (mkOP 0 Sell 100 4 4 0 (-1) 1 0 1000 1000 (1%N :: nil))) None;
   mkOS None (Some (mkOX 0 Sell 100 4 59 1 0 1000 2000 [1%N; 2%N])) ]%list.
 (* short 4 @ 100 (fee 1) closed at 85: +60 - 1 *)
-Check eq_refl : judge (CFills fills good_obs true (Some (1%N, 59)) (0%N, 1)) = 0%N.
+Check eq_refl : judge (CFills fills good_obs true (Some (1%N, 59)) (mkMeta 0 1 [] true)) = 0%N.
 (* same observations when the InstrumentState is a perpetual with contract size 0.001 *)
-Check eq_refl : judge (CFills fills good_obs true (Some (1%N, 59)) (1%N, 1 # 1000)) = 0%N.
+Check eq_refl : judge (CFills fills good_obs true (Some (1%N, 59)) (mkMeta 1 (1 # 1000) [1%N; 2%N] true)) = 0%N.
+(* a persist / restore round trip that changed the state: rejected *)
+Check eq_refl : judge (CFills fills good_obs true (Some (1%N, 59)) (mkMeta 0 1 (1%N :: nil) false)) = 2%N.
 (* realised PnL with the sign of a long: rejected by the oracle *)
 Check eq_refl : judge (CFills fills
   [ mkOS (Some (mkOP 0 Sell 100 4 4 0 (-1) 1 0 1000 1000 (1%N :: nil))) None;
-    mkOS None (Some (mkOX 0 Sell 100 4 (-61) 1 0 1000 2000 [1%N; 2%N])) ]%list true (Some (1%N, -61)) (0%N, 1)) = 2%N.
+    mkOS None (Some (mkOX 0 Sell 100 4 (-61) 1 0 1000 2000 [1%N; 2%N])) ]%list true (Some (1%N, -61)) (mkMeta 0 1 [] true)) = 2%N.
 (* no closed record although the net quantity reached zero: rejected *)
 Check eq_refl : judge (CFills fills
   [ mkOS (Some (mkOP 0 Sell 100 4 4 0 (-1) 1 0 1000 1000 (1%N :: nil))) None;
-    mkOS (Some (mkOP 0 Sell 100 0 4 0 59 1 0 1000 2000 [1%N; 2%N])) None ]%list true (Some (0%N, 0)) (0%N, 1)) = 2%N.
+    mkOS (Some (mkOP 0 Sell 100 0 4 0 59 1 0 1000 2000 [1%N; 2%N])) None ]%list true (Some (0%N, 0)) (mkMeta 0 1 [] true)) = 2%N.
 (* the closing fill's id missing from the closed record: rejected *)
 Check eq_refl : judge (CFills fills
   [ mkOS (Some (mkOP 0 Sell 100 4 4 0 (-1) 1 0 1000 1000 (1%N :: nil))) None;
-    mkOS None (Some (mkOX 0 Sell 100 4 59 1 0 1000 2000 (1%N :: nil))) ]%list true (Some (1%N, 59)) (0%N, 1)) = 2%N.
+    mkOS None (Some (mkOX 0 Sell 100 4 59 1 0 1000 2000 (1%N :: nil))) ]%list true (Some (1%N, 59)) (mkMeta 0 1 [] true)) = 2%N.
 (* the tear sheet did not count the closed record: rejected *)
-Check eq_refl : judge (CFills fills good_obs true (Some (0%N, 0)) (0%N, 1)) = 2%N.
+Check eq_refl : judge (CFills fills good_obs true (Some (0%N, 0)) (mkMeta 0 1 [] true)) = 2%N.
 (* model and oracle accept what the model produces on the non-vacuity history *)
 Check eq_refl : oracle_accepts_model (CFills
   [ mkOF 1 0 1 Buy 100 2 1; mkOF 2 0 2 Sell 110 1 1; mkOF 3 0 3 Buy 120 1 1; mkOF 4 0 4 Sell 130 5 5;
-    mkOF 5 0 5 Buy 90 4 2; mkOF 6 0 6 Buy 95 1 0; mkOF 7 0 7 Sell 100 2 1 ]%list [] true None (0%N, 1)) = true.
+    mkOF 5 0 5 Buy 90 4 2; mkOF 6 0 6 Buy 95 1 0; mkOF 7 0 7 Sell 100 2 1 ]%list [] true None (mkMeta 0 1 [] true)) = true.
 End PinCorr.
